@@ -513,6 +513,43 @@ def _obs(s) -> str:
     return f"Ok {g_str(s[1])}" if s[0] == "out" else f"Err {s[1]}"
 
 
+SEQ_SOURCES = {
+    "base": "<{% block t %}untitled{% endblock %}:{% block b %}-{% endblock %}>",
+    "child": "{% extends 'base' %}{% block t %}FANCY{% endblock %}{% block b %}{{ block.super }}fancy body{% endblock %}",
+    "child2": "{% extends 'base' %}{% block b %}two{% endblock %}",
+    "grand": "{% extends 'child' %}{% block t %}G{{ block.super }}{% endblock %}",
+    "reqbase": "({% block r required %}{% endblock %})",
+    "reqchild": "{% extends 'reqbase' %}{% block r %}R{% endblock %}",
+}
+
+
+def sequence_family(ck: Check) -> None:
+    """Several inheritance chains resolved one after the other in ONE render context (include / render of templates that extend):
+    each is resolved on its own -- the block definitions of a finished chain do not reach the next template, whether that is another
+    chain over the same base or the base itself rendered directly (oracle only: the main template prints what its pieces print when
+    each is the template being rendered; the first piece that raises decides the error)."""
+    names = ["base", "child", "child2", "grand", "reqbase", "reqchild"]
+    alone = {n: run_impl(30, SEQ_SOURCES, n, {}, False) for n in names}
+    for tag in ("include", "render"):
+        for k in (2, 3):
+            for seq in itertools.permutations(names, k):
+                if k == 3 and ck.quick and ("reqbase" in seq and "reqchild" in seq):
+                    continue
+                main = "".join("{% " + tag + " '" + n + "' %}|" for n in seq)
+                sources = dict(SEQ_SOURCES, main=main)
+                exp = next((alone[n] for n in seq if alone[n][0] == "err"), None) or ("out", "".join(alone[n][1] + "|" for n in seq))
+                s = _depth(run_impl(30, sources, "main", {}, False))
+                x = _depth(run_impl(30, sources, "main", {}, True))
+                ck.note_case(("sequence", tag, seq), nontrivial=True)
+                ck.count("sequence." + ("raised" if s[0] == "err" else "completed"))
+                ck.traces += 2
+                if (s != exp or x != exp) and sum(1 for v in ck.violations if v.signature.startswith("c18-chains-in-sequence")) < 4:
+                    ck.violation("impl-violation", f"c18-chains-in-sequence:{tag}",
+                                 f"{main!r} over {SEQ_SOURCES}: sync {s}, async {x}; each piece on its own gives {[alone[n] for n in seq]}, "
+                                 f"so the whole must give {exp}",
+                                 {"type": "render", "limit": 30, "sources": sources, "leaf": "main", "data": {}, "reference": list(exp)})
+
+
 def run(ck: Check) -> None:
     ck.rule = (
         "exhaustive shapes: chains of 1, 2, 3 (thorough: 3 in full, 4 sampled) templates, each defining blocks a and b in one of "
@@ -540,6 +577,7 @@ def run(ck: Check) -> None:
         "endless mutual recursion between blocks: RecursionError from the Python stack is read as the depth guard (C02/C09 own that escape)",
     ]
     ck.proof()
+    sequence_family(ck)
 
     n_random = 1500 if ck.quick else 15000
     cases = itertools.chain(gen_probes(ck), gen_placeholders(ck), gen_blank(ck), gen_shaped(ck), gen_random(ck, n_random, 3 if ck.quick else 4))
